@@ -319,7 +319,7 @@ def run_shard(spec, seed, tier):
 
     def body(case):
         return eval_case(case, res, kf, budget)
-    n = 60 if tier == "quick" else 600
+    n = 120 if tier == "quick" else 800
     found = core.hyp_search(case_strategy(), body, seed, n, shrink_budget_s=30)
     if found:
         res.failures.extend(found)
